@@ -95,7 +95,7 @@ Alphabet(fam, c, es) ==
          ELSE IF n = 1 THEN {PS("PS2", p) : p \in PS1s}
          ELSE {E("multi", f, "k", 0) : f \in {"if", "heredoc2", "sq"}} \cup {E("read", "", "r", 1), Probe("a")}
     [] fam = "multi" ->
-         {E("multi", f, k, 0) : f \in AllForms, k \in IF Deep = 1 /\ n = 0 THEN Tags ELSE {"k"}}
+         UNION {{E("multi", f, k, 0) : k \in IF Deep = 1 /\ n = 0 /\ f \in {"if", "sq", "heredoc"} THEN Tags ELSE {"k"}} : f \in AllForms}
          \cup {E("synerr", f, "", 0) : f \in AllErrForms}
          \cup {Probe("a"), E("empty", "", "", 0), E("comment", "", "c", 0), E("echo", "", "o", 0), E("exit", "", "", 0)}
          \cup (IF n = 0 THEN {E("opt", "verbose", "", 1), PS("PS2", <<Lit("@c ")>>), PS("PS1", <<Lit("@p"), Tok("sta", "", ""), Lit(" ")>>)} ELSE {})
@@ -148,18 +148,23 @@ Allowed(fam, c, S, es, e) ==
   /\ (fam = "eof" /\ e.t = "opt") => (Len(es) <= 1)
 
 \* call level: a prompt string, the value of x, PS1 or PS2, the nounset option
-NoCall == [toks |-> <<>>, x |-> Unset, first |-> TRUE, nou |-> FALSE]
-CallCases == {[toks |-> t, x |-> x, first |-> f, nou |-> n] :
+NoCall == [toks |-> <<>>, x |-> Unset, first |-> TRUE, nou |-> FALSE, tty |-> FALSE, k |-> 0]
+\* EofGuard: interactive (first), ignoreeof (nou), terminal, number of end-of-file conditions
+GuardCases == {[toks |-> <<>>, x |-> Unset, first |-> i, nou |-> g, tty |-> t, k |-> k] :
+                 i \in BOOLEAN, g \in BOOLEAN, t \in BOOLEAN, k \in {0, 1, 2, 49, 50, 51}}
+CallCases == {[toks |-> t, x |-> x, first |-> f, nou |-> n, tty |-> FALSE, k |-> 0] :
                 t \in PS1s \cup (IF Deep = 1 THEN PS2pairs ELSE {p \in PS2pairs : p[2].k \in {"lit", "var", "inc"}}),
                 x \in XVals \cup {Unset}, f \in BOOLEAN, n \in BOOLEAN}
 CallOK(cc) == ~(cc.nou /\ \E i \in DOMAIN cc.toks : SideEff(cc.toks[i]))
 
-Init == \/ \E fam \in Fams \ {"call"} : \E ce \in Start(fam) :
+Init == \/ \E fam \in Fams \ {"call", "guard"} : \E ce \in Start(fam) :
              /\ Modelled(ce[1], Init0(ce[1]))
              /\ st = [fam |-> fam, c |-> ce[1], es |-> ce[2], S |-> Init0(ce[1]), call |-> NoCall]
         \/ /\ "call" \in Fams
            /\ \E cc \in CallCases : CallOK(cc) /\ st = [fam |-> "call", c |-> Tty, es |-> <<>>, S |-> Init0(Tty), call |-> cc]
-Next == /\ st.fam # "call"
+        \/ /\ "guard" \in Fams
+           /\ \E cc \in GuardCases : st = [fam |-> "guard", c |-> Tty, es |-> <<>>, S |-> Init0(Tty), call |-> cc]
+Next == /\ st.fam \notin {"call", "guard"}
         /\ Len(st.es) < MaxLen(st.fam)
         /\ \E e \in Alphabet(st.fam, st.c, st.es) :
              /\ Allowed(st.fam, st.c, st.S, st.es, e)
@@ -198,7 +203,13 @@ CallLine(cc) ==
   IN [fam |-> "call", text |-> RawPS(cc.toks), first |-> cc.first, nou |-> cc.nou, x |-> cc.x,
       pat |-> d.p, post |-> <<d.V["x"], d.V["u"], d.V["n"]>>]
 
-Emit == IF st.fam = "call" THEN PrintT(ToJson(CallLine(st.call))) ELSE PrintT(ToJson(Line(st)))
+GuardLine(cc) ==
+  LET g == GuardExpect(cc.first, cc.tty, cc.nou, cc.k)
+  IN [fam |-> "guard", inter |-> cc.first, ign |-> cc.nou, tty |-> cc.tty, k |-> cc.k, pat |-> g.pat, ret |-> g.ret]
+
+Emit == CASE st.fam = "call" -> PrintT(ToJson(CallLine(st.call)))
+          [] st.fam = "guard" -> PrintT(ToJson(GuardLine(st.call)))
+          [] OTHER -> PrintT(ToJson(Line(st)))
 
 -----------------------------------------------------------------------------
 (***************************************************************************)
@@ -221,7 +232,7 @@ AnyHasX(as) == IF as = <<>> THEN FALSE ELSE HasX(Head(as)) \/ AnyHasX(Tail(as))
 Plain(es) == \A i \in DOMAIN es : es[i].t \notin {"eof", "exit", "read"} /\ ~(es[i].t = "multi" /\ es[i].i > 0)
 
 Laws ==
-  st.fam # "call" =>
+  st.fam \notin {"call", "guard"} =>
   LET c == st.c  es == st.es  F == Finish(c, st.S, "spec")
   IN \* a shell that does not prompt writes no prompt at all
      /\ ~Prompting(c) => (F.n1 = 0 /\ F.n2 = 0)
@@ -251,7 +262,7 @@ ASSUME ExclLaw
 (* claimed to be acceptable; TLC must refute the claim.                     *)
 (***************************************************************************)
 Refute ==
-  (Variant # "spec" /\ st.fam # "call") =>
+  (Variant # "spec" /\ st.fam \notin {"call", "guard"}) =>
      LET W == Session(st.c, st.es, Variant)
          F == Finish(st.c, st.S, "spec")
      IN Matches(F.pat, Render(W.pat))
